@@ -272,7 +272,7 @@ def main(tier, seed):
         name = "seq_p%d" % first
         files.append((e2.write_module("c12_" + name, HSEQ % {"first": first, "maxlen": 3 if tier == "quick" else 4, "name": name}),
                       name, "sequential", first, 3))
-    timeout = 300 if tier == "quick" else 2400
+    timeout = 300 if tier == "quick" else 1200
     procs = int(os.environ.get("VERIF_PROCS", "16"))
 
     def job(item):
